@@ -310,7 +310,7 @@ def step (d : DState) (cmd : String) (args : List (List Char)) : DState × Strin
         | .error e => "gerr " ++ e.str)
   | "g.lpaths", [] => (d, "ok " ++ ";".intercalate ((G.linearPaths d.g).map G.showPath))
   | "g.lpath", [s] =>
-    (d, "ok " ++ G.showPath (G.linearPath (G.otherEnds d.g) ((G.segNames d.g).length + 1) (str s) []).1)
+    (d, "ok " ++ G.showPath (G.linearPath (G.otherEnds d.g) (G.pathFuel d.g) (str s) []).1)
   | "g.counts", [] =>
     (d, s!"ok dovetails={G.nDovetails d.g} containments={G.nContainments d.g} internals={G.nInternals d.g} dead_ends={G.nDeadEnds d.g}")
   | _, _ =>
